@@ -117,14 +117,39 @@ func (e *Exec) strSlice(s Str, lo, hi int) Str {
 func (e *Exec) sliceOp(fr *frame, in *ssa.Slice) Value {
 	x := fr.use(in.X)
 	lo, hi, max := -1, -1, -1
+	// a symbolic bound (e.g. the width of a decoded rune) is resolved by forking over 0..capacity
+	limit := -1
+	switch v := x.(type) {
+	case Str:
+		if v.Op == nil {
+			limit = v.Len()
+		}
+	case Slice:
+		if v.Abs == nil {
+			limit = v.Cap
+		}
+	}
+	bound := func(val ssa.Value, what string) int {
+		t := fr.get(val).(*T)
+		if t.IsConst() || limit < 0 || limit > 64 {
+			return e.concInt(t, what)
+		}
+		for i := 0; i <= limit; i++ {
+			if e.Branch(sym.Eq(t, sym.BVC(t.S.W, uint64(i)))) {
+				return i
+			}
+		}
+		e.rtPanic("slice bounds out of range (symbolic)")
+		return 0
+	}
 	if in.Low != nil {
-		lo = e.concInt(fr.get(in.Low), "slice low")
+		lo = bound(in.Low, "slice low")
 	}
 	if in.High != nil {
-		hi = e.concInt(fr.get(in.High), "slice high")
+		hi = bound(in.High, "slice high")
 	}
 	if in.Max != nil {
-		max = e.concInt(fr.get(in.Max), "slice max")
+		max = bound(in.Max, "slice max")
 	}
 	switch v := x.(type) {
 	case Str:
@@ -178,6 +203,20 @@ func (e *Exec) sliceOp(fr *frame, in *ssa.Slice) Value {
 	panic(fmt.Sprintf("slice of %T", x))
 }
 
+// getIndex reads an index operand; an unsigned index narrower than 64 bits (first[s[0]]) is
+// zero-extended so that its concrete value is not read as negative.
+func (fr *frame) getIndex(v ssa.Value) Value {
+	x := fr.get(v)
+	t, ok := x.(*T)
+	if !ok || t.S.W >= 64 {
+		return x
+	}
+	if b, ok := v.Type().Underlying().(*types.Basic); ok && b.Info()&types.IsUnsigned != 0 {
+		return sym.ZExt(t, 64)
+	}
+	return x
+}
+
 // idx resolves an index value to a concrete int in [0,n), forking if symbolic.
 func (e *Exec) idx(v Value, n int) int {
 	t := v.(*T)
@@ -210,16 +249,16 @@ func (e *Exec) indexAddr(fr *frame, in *ssa.IndexAddr) Value {
 			fb := e.jFirstByte(e.textValue(v))
 			return Ptr{Obj: e.newObj(types.Typ[types.Uint8], fb, "json.firstbyte")}
 		}
-		i := e.idx(fr.get(in.Index), v.Len)
+		i := e.idx(fr.getIndex(in.Index), v.Len)
 		return Ptr{Obj: v.Obj, Path: []int{v.Off + i}}
 	case Ptr:
 		p := e.derefCheck(v)
 		if p.Obj.Arr && len(p.Path) == 0 {
-			i := e.idx(fr.get(in.Index), len(p.Obj.Elems))
+			i := e.idx(fr.getIndex(in.Index), len(p.Obj.Elems))
 			return Ptr{Obj: p.Obj, Path: []int{i}}
 		}
 		arr := e.load(p).(*Array)
-		i := e.idx(fr.get(in.Index), len(arr.E))
+		i := e.idx(fr.getIndex(in.Index), len(arr.E))
 		return Ptr{Obj: p.Obj, Path: appendPath(p.Path, i)}
 	}
 	panic(fmt.Sprintf("indexaddr of %T", x))
@@ -255,7 +294,7 @@ func (e *Exec) index(fr *frame, in *ssa.Index) Value {
 		if r, ok := e.selectScalar(fr.get(in.Index).(*T), len(v.E), func(k int) Value { return v.E[k] }); ok {
 			return r
 		}
-		return v.E[e.idx(fr.get(in.Index), len(v.E))]
+		return v.E[e.idx(fr.getIndex(in.Index), len(v.E))]
 	case Str:
 		if v.Op != nil {
 			e.unsupported("indexing opaque string")
@@ -263,7 +302,7 @@ func (e *Exec) index(fr *frame, in *ssa.Index) Value {
 		if r, ok := e.selectScalar(fr.get(in.Index).(*T), v.Len(), func(k int) Value { return v.Byte(k) }); ok {
 			return r
 		}
-		return v.Byte(e.idx(fr.get(in.Index), v.Len()))
+		return v.Byte(e.idx(fr.getIndex(in.Index), v.Len()))
 	}
 	panic(fmt.Sprintf("index of %T", x))
 }
@@ -496,7 +535,7 @@ func (e *Exec) lookup(fr *frame, in *ssa.Lookup) Value {
 		if r, ok := e.selectScalar(fr.get(in.Index).(*T), s.Len(), func(k int) Value { return s.Byte(k) }); ok {
 			return r
 		}
-		return s.Byte(e.idx(fr.get(in.Index), s.Len()))
+		return s.Byte(e.idx(fr.getIndex(in.Index), s.Len()))
 	}
 	mr := x.(MapRef)
 	vt := in.X.Type().Underlying().(*types.Map).Elem()
